@@ -1,6 +1,6 @@
 (* C01 — hash_tree_root equals SSZ-spec merkleization for every type and value.
    Property theorems only.  H is any pair hash. *)
-Require Import RM.Base RM.Gindex RM.Tree RM.Types RM.Spec RM.ModelViews RM.MerkleProofs RM.PackProofs RM.CtorProofs RM.ModelCodec RM.DeserProofs RM.SoundProofs RM.ReprProofs.
+Require Import RM.Base RM.Gindex RM.Tree RM.Types RM.Spec RM.ModelViews RM.MerkleProofs RM.PackProofs RM.CtorProofs RM.ModelCodec RM.DeserProofs RM.SoundProofs RM.ReprProofs RM.DefaultEq RM.ModelObj RM.ObjProofs RM.ModelStore RM.StoreChain.
 
 (* the value built by the constructor of ANY well-formed type (arbitrary nesting, any length / limit
    below 2^64) from ANY well-formed value has the specification's hash-tree-root *)
@@ -67,3 +67,34 @@ Print Assumptions C01_fill_length.
 Print Assumptions C01_any_representation.
 Print Assumptions C01_get_depth.
 Print Assumptions C01_nonvacuous.
+
+(* the object-import route: exporting ANY representation of a value and importing the object (directly or
+   after a JSON dump / load) yields a backing with the spec root of that value *)
+Theorem C01_import_route : forall H src t v n, wf_ty t = true -> fields_ok t = true -> wf t v = true -> Repr H t v n ->
+  exists o n0, to_obj H src t n = Ok o /\ from_obj H t o = Ok n0 /\ from_obj H t (json_rt o) = Ok n0 /\ root H n0 = htr H t v.
+Proof.
+  intros H src t v n Hty Hok Hwf Hr. destruct (mk_root H t v Hty Hwf) as (n0 & Hm & _).
+  destruct (obj_roundtrip_json H src t v n n0 Hty Hok Hwf Hr Hm) as (o & Ho & Hf & Hj & Hroot). eauto 6.
+Qed.
+
+(* the default route: the default backing of every type has the spec root of the type's zero value *)
+Theorem C01_default_route : forall H t, wf_ty t = true ->
+  exists n, default_node H t = Ok n /\ root H n = htr H t (zero_val t).
+Proof.
+  intros H t Hty. destruct (default_encoding H (fun _ => None) t Hty) as (n & Hd & Hr & _). eauto.
+Qed.
+
+(* the mutation route: whatever backing a mutating command (element / field assignment, append, pop, bit
+   assignment, union change) computes for a view that represents v has the spec root of the value the command
+   specifies; by C05_cmd_on_chain the same then holds for every enclosing view *)
+Theorem C01_mutation_route : forall H src c v cm nb, good H c v -> new_backing H src c cm = Ok nb ->
+  exists x, cmd_effect (cty c) v cm = Some x /\ wf (cty c) x = true /\ root H nb = htr H (cty c) x.
+Proof.
+  intros H src c v cm nb Hg Hnb. pose proof Hg as (Hty & _ & _).
+  destruct (new_backing_sound H src c v cm nb Hg Hnb) as (x & He & Hw & Hr).
+  exists x. split; [exact He|]. split; [exact Hw|]. now apply Repr_root.
+Qed.
+
+Print Assumptions C01_import_route.
+Print Assumptions C01_default_route.
+Print Assumptions C01_mutation_route.
